@@ -97,6 +97,8 @@ impl<R: Rng + ?Sized> RandBigInt for R {
                 // the probability of generating a zero BigInt would be
                 // double that of any other number.
                 if self.gen() {
+                    #[cfg(num_bigint_verif)]
+                    crate::__verif::hit(crate::__verif::RAND_RETRY_BIGINT);
                     continue;
                 } else {
                     NoSign
@@ -118,6 +120,8 @@ impl<R: Rng + ?Sized> RandBigInt for R {
             if n < *bound {
                 return n;
             }
+            #[cfg(num_bigint_verif)]
+            crate::__verif::hit(crate::__verif::RAND_RETRY_BELOW);
         }
     }
 
